@@ -356,7 +356,7 @@ def run_extra_checks(prop, repo, spec, gnums, repo_root):
     path = os.path.join(VERIF, "contracts", "extra_%s.py" % prop.lower())
     if not os.path.exists(path):
         return out
-    ns = {}
+    ns = {"__file__": path}
     exec(compile(open(path).read(), path, "exec"), ns)
     res = ns["run"](repo=repo, spec=spec, ground=gnums, repo_root=repo_root)
     for k in out:
